@@ -32,5 +32,6 @@ def run(chk, ix, tier):
     rules_active.check_grouping(chk, ix)
     rules_active.check_tag_pattern(chk, ix)
     rules_active.check_matcher_keeps_provider(chk, ix)
+    rules_active.check_value_objects_concrete(chk, ix)
     for r, n in (("A1", 100), ("A2", 8), ("A3", 10), ("A5", 4), ("A6", 4), ("A7", 6), ("A8", 1), ("A9", 40), ("A10", 2)):
         chk.require_instances(r, n)
